@@ -144,6 +144,20 @@ def directed_symlink(cw, sb, rng):
             else: m['files'][fn] = b'revision\n' * 3
     return ['directed:symlink']
 
+def directed_legacy_used(cw, sb, rng):
+    """witness for K7f: every root keeps only a legacy-named manifest with the right entries; one module changes, so
+    the deploy rewrites the manifests; an interruption between two manifest writes leaves the later roots with their
+    (still exact) legacy manifests, which the re-run accepts"""
+    for r in cw.roots(None):
+        pref = r['root'] + '/' + ds.mf_name(r['target']); leg = r['root'] + '/' + ds.LEGACY
+        if os.path.exists(pref) and not os.path.exists(leg):
+            os.rename(pref, leg)
+    mods = [m for m in cw.modules if m['enabled']]
+    m = sorted(mods, key=lambda m: m['id'])[0]
+    fn = 'SKILL.md' if m['type'] == 'skill' else sorted(m['files'])[0]
+    m['files'][fn] = ds.skill_md(m['id'].split(':')[1], 'changed') if fn == 'SKILL.md' else (ds.command_md('do changed') if m['type'] == 'command' else b'changed\n')
+    return ['directed:legacy_used']
+
 def directed_all_empty(cw, sb, rng):
     """regression for K7e: the deploy empties every remaining root (all manifests are rewritten empty) while an
     earlier snapshot still lists files of a nested root that is switched off now; an interruption after the last
@@ -172,7 +186,7 @@ def run_scenario(ctx, idx, kinds, max_points, cases, directed=None):
         cw = ds.CfgWorld(sb, rng)
         while not cw.desired(None):
             cw = ds.CfgWorld(sb, rng)
-        if directed is directed_all_empty:
+        if directed in (directed_all_empty, directed_legacy_used):
             first_deploy_all_on(cw)
         cw.write()
         base = sb.root
@@ -274,9 +288,16 @@ def run_scenario(ctx, idx, kinds, max_points, cases, directed=None):
                 if not (doc3 and doc3.get('ok')) or not same:
                     only_manifests = bool(doc3 and doc3.get('ok')) and all(ds.is_manifest_name(os.path.basename(q)) for q in diffp)
                     noop = bool(doc3 and doc3.get('ok')) and not doc3['data'].get('applied')
+                    # class K7f: the re-run succeeded, only manifest FILES differ and every root lists exactly the same
+                    # files in both states (an empty manifest of a root without outputs was not re-created, or a
+                    # legacy-named manifest with the right entries was not migrated to the per-target name)
+                    same_listing = bool(doc3 and doc3.get('ok')) and all(
+                        ds.accepted_entries(visible(again), [r], ids) == ds.accepted_entries(visible(final), [r], ids) for r in R)
                     if only_manifests and noop and ctx.is_known('K7c'):
                         # class K7c: all file changes were done, only (stale) manifests differ, the re-run took the no-change shortcut
                         ctx.known_finding('K7c', KNOWN['K7c'])
+                    elif only_manifests and same_listing and ctx.is_known('K7f'):
+                        ctx.known_finding('K7f', KNOWN['K7f'])
                     else:
                         ctx.violation('re-running after %s at point %d does not reach the uninterrupted final state (%s)' % (kind, j, diffp[:3] or out3[:120]), r2)
         # Coq case: trace + abort prefixes
@@ -292,6 +313,7 @@ def run_scenario(ctx, idx, kinds, max_points, cases, directed=None):
 
 KNOWN = {'K7a': 'a permission error outside write_atomic (backup copy, remove_file, create_dir_all of snapshot dirs) is reported as E_UNEXPECTED instead of the stable E_IO_PERMISSION_DENIED',
          'K7b': 'rollback ignores remove_file errors: it exits 0 and records rollback_delete although the file is still there',
+         'K7f': 'after a re-run the manifest FILES can differ from the uninterrupted run although every root lists exactly the same files: an empty manifest of a root without outputs is not re-created, a legacy-named manifest with the right entries is not migrated to the per-target name',
          'K7c': 're-running deploy after an interruption between the file writes and the manifest writes takes the no-change shortcut and never rewrites the stale manifests'}
 
 def snapshot_term(sb, sid, ids, base, with_manifests):
@@ -416,6 +438,8 @@ def run(ctx):
         run_scenario(ctx, 2000 + i, kinds, 20 if quick else None, cases, directed=directed_all_empty)
     for i in range(2 if quick else 6):
         run_scenario(ctx, 3000 + i, kinds, 20 if quick else None, cases, directed=directed_symlink)
+    for i in range(2 if quick else 6):
+        run_scenario(ctx, 4000 + i, ['abort'], None, cases, directed=directed_legacy_used)
     for c in ctx.corr('crash', HEADER, 'check_crash', 'crash_case', cases, shard_chars=40000):
         ctx.violation('model and implementation disagree on the sequence of mutating operations / a crash-prefix disk', c, no_input=True)
     rcases = []
